@@ -830,6 +830,31 @@ SEMANTIC = ["clone", "detach", "neg", "relu", "frelu", "mul_scalar", "rmul_scala
 ALLOPS = INTERCEPTED + INTERCEPTED + SEMANTIC + SEMANTIC + PASSTHROUGH + INPLACE  # intercepted ops (and those acting on codes) more likely
 
 
+PAIR_OPS = ["cat", "stack", "lt", "lt_m", "gt", "eq", "where", "add", "sub", "mul_tensor", "div_tensor", "maximum", "equal", "copy_", "cosine_similarity", "is_same_size"]
+
+
+def pair_cases():
+    """complete list of the 2-step programs  source -> operation with a companion operand  over 12 quantized source kinds x the
+    binary operations x every companion mode (existing entry, equal scale, other qtype, near-equal scale, other dtype, fresh) x
+    argument variants: the combinations a random program reaches only now and then"""
+    cases = []
+    sources = []
+    for q in range(3):
+        sources.append({"op": "src_qa", "a": q, "b": q, "c": 0, "shape": [3, 4], "seed": 21 + q})
+        sources.append({"op": "src_qw", "a": (q + 1) % 3, "b": q, "c": 0, "shape": [3, 4], "seed": 24 + q})       # first axis
+        sources.append({"op": "src_qw", "a": (q + 2) % 3, "b": q + 3, "c": 0, "shape": [4, 3], "seed": 27 + q})   # last axis
+    sources.append({"op": "src_qa", "a": 0, "b": 0, "c": 0, "shape": [2, 3, 2], "seed": 31})
+    sources.append({"op": "src_qw", "a": 0, "b": 0, "c": 0, "shape": [2, 3, 2], "seed": 32})
+    sources.append({"op": "src_qbits", "a": 0, "b": 0, "c": 0, "shape": [4, 8], "seed": 33})
+    for src in sources:
+        for opname in PAIR_OPS:
+            for a in range(36):
+                for b in range(3):
+                    for c in range(2):
+                        cases.append({"steps": [src, {"op": opname, "s": [0, 1, 2], "a": a, "b": b, "c": c}]})
+    return cases
+
+
 @st.composite
 def programs(draw, max_steps=8):
     nsrc = draw(st.integers(1, 3))
